@@ -18,7 +18,7 @@ from harness.engine.core import chunks
 
 SPEC = os.path.join(T.SPECS, "Spinner")
 SYM = {"\\": "%"}  # the backslash of the default indicator values travels as "%"
-BUDGET = 600  # steps of the fair completion phase (a run of the largest body needs < 80)
+BUDGET = 300  # steps of the fair completion phase (a run of the largest body needs < 120)
 M_ACTIONS = ["MLock", "MErase", "MFrame", "MThreadStart", "MWork", "MXLf", "MXSet", "MXJoin", "MFSet", "MFJoin", "MFLf"]
 S_ACTIONS = ["SIsSet", "SLock", "SErase", "SFrame", "SWake"]
 
@@ -379,7 +379,7 @@ def run(ctx):
     for cfg in (["MC_Spinner_sched_quick.cfg"] if quick else ["MC_Spinner_sched_quick.cfg", "MC_Spinner_sched_thorough.cfg"]):
         r = ctx.model(SPEC, "MC_Spinner", cfg, name="schedules " + cfg, workers=8)
         n_all += _replay_auto(ctx, r, traces, cases, labels, state)
-    r = ctx.model(SPEC, "MC_Spinner", "MC_Spinner_sim.cfg", name="simulated schedules", simulate="num=%d" % (150 if quick else 3000),
+    r = ctx.model(SPEC, "MC_Spinner", "MC_Spinner_sim.cfg", name="simulated schedules", simulate="num=%d" % (150 if quick else 8000),
                   depth=200, workers=1, seed=ctx.seed % 100000)
     n_sim = _replay_auto(ctx, r, traces, cases, labels, state)
     if n_all < 1000 or n_sim < 50:
@@ -392,7 +392,7 @@ def run(ctx):
     ctx.sample({"tlc_schedule": state["sample"]})
 
     # ---- code -> spec: random schedules
-    for t in range(400 if quick else 6000):
+    for t in range(400 if quick else 15000):
         case = random_case(ctx.rng)
         tr = run_auto(case)
         traces.append(tr)
@@ -428,7 +428,7 @@ def run(ctx):
         raise T.MachineryError("too few manual-mode behaviours emitted (%d)" % nman)
     ctx.extra["tlc_manual_behaviours_replayed"] = nman
     ctx.extra["tlc_manual_behaviours_not_reproduced"] = len(traces)
-    for t in range(400 if quick else 5000):
+    for t in range(400 if quick else 10000):
         case = random_manual_case(ctx.rng)
         traces.append(run_manual(case))
         cases.append(dict(case, kind="manual"))
